@@ -12,7 +12,8 @@ Step ==
   /\ l <= Len(Traces[tid]) /\ l' = l + 1 /\ UNCHANGED tid
   /\ \/ Ev.ev = "rx" /\ S!Rx(Ev.cls, Ev.seq, Ev.up)
      \/ Ev.ev = "tx" /\ Ev.wrapped = 0 /\ S!TxPlain(Ev.kind)
-     \/ Ev.ev = "tx" /\ Ev.wrapped = 1 /\ S!TxWrapped(Ev.seq)
+     \/ Ev.ev = "tx" /\ Ev.wrapped = 1 /\ S!TxWrapped(Ev.seq) /\ Ev.kind # "undecryptable"      \* ... wrapped with the key of the running handshake / session
+     \/ Ev.ev = "connect2_failed" /\ ~init /\ UNCHANGED <<init, rxSeq, txSeq>>                \* a connect answered with a forged SessionResponse fails: no session
      \/ Ev.ev = "stopped" /\ S!Stopped
 TSpec == TInit /\ [][Step]_vars
 Mark == /\ TLCSet(2, [TLCGet(2) EXCEPT ![tid] = IF @ < l THEN l ELSE @])
